@@ -189,7 +189,7 @@ pub fn property() -> Property {
         subchecks: vec![
             SubCheck {
                 name: "generated_positions",
-                driver: Driver::Generated { gen: gen_pos_case, genome_len: 192, quick: 100_000, thorough: 5_000_000 },
+                driver: Driver::Generated { gen: gen_pos_case, genome_len: 192, quick: 600_000, thorough: 12_000_000 },
                 check: check_case,
                 configs: Configs::ReleaseOnly,
                 required: &["checkmate", "stalemate", "insufficient_material", "moves75", "moves50", "no_outcome", "material_near_miss", "no_legal_but_illegal_ep"],
